@@ -81,8 +81,10 @@ Section Eval.
     | CElseIf l r =>
         flat_map (fun p : res => if snd p then eval r (fst p) else [(fst p, false)]) (eval l b)
     | CUnion l r =>
+        (* Union._evaluate__ (since 6dfdafd): left-then-right as ElseIf, then the TRUE results of the right operand on the
+           original bindings *)
         flat_map (fun p : res => if snd p then eval r (fst p) else [(fst p, false)]) (eval l b)
-        ++ eval r b
+        ++ filter (fun p : res => negb (snd p)) (eval r b)
     | CNot c => map (fun p : res => (fst p, negb (snd p))) (eval c b)
     | CExists e c => exists_scan (exists_others e c) [] (eval c b)
     | CForAll y c =>
@@ -100,8 +102,9 @@ Section Eval.
         end
     end.
 
-  (* QueryObjectDescriptor: true results of the child; each selected expression evaluated independently on a copy of the
-     bindings; itertools.product of the value generators (leftmost varies slowest) *)
+  (* QueryObjectDescriptor: true results of the child; the selected expressions are enumerated by nested loops (leftmost
+     varies slowest), each under the bindings produced by the ones before it (evaluate_selected_variables since 32abf51;
+     before that: itertools.product of independent evaluations, kept as [select_product] for the regression witness) *)
   Definition true_results (c : option cond) : list binds :=
     match c with
     | Some c => map fst (filter (fun p : res => negb (snd p)) (eval c []))
@@ -114,8 +117,14 @@ Section Eval.
     | l :: ls' => flat_map (fun a => map (cons a) (product ls')) l
     end.
 
-  Definition select (sels : list opnd) (b : binds) : list (list val) :=
+  Definition select_product (sels : list opnd) (b : binds) : list (list val) :=
     product (map (fun s => map snd (ev_opnd s b)) sels).
+
+  Fixpoint select (sels : list opnd) (b : binds) : list (list val) :=
+    match sels with
+    | [] => [[]]
+    | s :: ss => flat_map (fun p : binds * val => map (cons (snd p)) (select ss (fst p))) (ev_opnd s b)
+    end.
 
   Definition run (q : query) : list (list val) :=
     flat_map (select (q_sels q)) (true_results (q_cond q)).
